@@ -12,7 +12,10 @@ CMP = ["==", "!=", "<", "<=", ">", ">="]
 ARITH = ["+", "-", "*", "/", "<<", ">>"]
 HOSTILE = ["'", "''", '"', "`", "\\", "\\'", "--", "/*", "*/", "#", ";", "\n", "\x00", "é", "日本", "a'b", "it's",
            "' OR 1=1 --", "x'; DROP TABLE t; --", "", " ", "  two  spaces", "%", "_", "\\\\", "'\\", "'a'", '"a"',
-           "`a`", "a\\'b", "?", ":1", "%s", "%(x)s", "\t", "\r\n", "''''", "a''b'"]
+           "`a`", "a\\'b", "?", ":1", "%s", "%(x)s", "\t", "\r\n", "''''", "a''b'",
+           # text that looks like statement structure (a renderer that post-processes the finished text must not see it)
+           ") SELECT ", ") INSERT ", "SELECT 1", "see (docs) SELECT carefully", "/*+label(x)*/", "WITH a AS (", " FROM t", "') --",
+           " ORDER BY ", "(", ")", "((", "))"]
 
 
 class G:
